@@ -94,7 +94,7 @@ def opOfJson (j : Json) : Except String Op := do
   | "touch" => pure .touch
   | "assign" => pure (.assign (← argT j "v"))
   | "flush" => pure .flush
-  | "reload" => pure .reload
+  | "reload" => pure (.reload (← argT j "v"))
   | s => throw s!"op {s}"
 
 def strOfErr : Err → String
